@@ -282,7 +282,8 @@ class Check:
         res = run_tlc(module, cfg, None, workers=workers, timeout=timeout, extra_args=extra_args, tag=f'{self.pid}-{part}', files=files)
         self.tlc_cmds.append(res['cmd'])
         if expect_violation:
-            if res.get('invariant') != expect_violation:
+            exp = {expect_violation} if isinstance(expect_violation, str) else set(expect_violation)
+            if res.get('invariant') not in exp:
                 raise Machinery(f'self-test {part}: expected TLC to violate {expect_violation}, got {res.get("invariant")} / {res["error"]}')
             self.parts.append({'part': part, 'kind': 'selftest', 'module': module, 'violated_as_expected': expect_violation})
             self.log(f'{part}: TLC violates {expect_violation} as expected (sensitivity self-test)')
